@@ -143,7 +143,13 @@ class CeluPlugin(PrimitiveLeafPlugin):
         ) -> Callable[..., ArrayLike]:
             if orig is None:
                 raise RuntimeError("Original jax.nn.celu not found")
-            return lambda *args, **kwargs: cls._PRIM.bind(*args, **kwargs)
+
+            def _patched(x: ArrayLike, alpha: float = 1.0) -> ArrayLike:
+                # Keep jax.nn.celu's signature: a positional alpha must become the
+                # primitive parameter, not a second (ignored) operand.
+                return cls._PRIM.bind(x, alpha=alpha)
+
+            return _patched
 
         return [
             AssignSpec("jax.nn", "celu_p", cls._PRIM, delete_if_missing=True),
